@@ -7,6 +7,7 @@ INVARIANT StaysInside
 INVARIANT Terminates
 INVARIANT WorkingAccurate
 INVARIANT ResultOK
+INVARIANT RoutineAgrees
 INVARIANT Emit
 CONSTANTS
   NMAX = 400
